@@ -2139,22 +2139,26 @@ impl ConfigState {
         }
 
         //pub certificates:    HashMap<SocketAddr, HashMap<CertificateFingerprint, (CertificateAndKey, Vec<String>)>>,
-        let my_certificates: HashSet<(SocketAddr, &Fingerprint)> = HashSet::from_iter(
-            self.certificates
-                .iter()
-                .flat_map(|(addr, certs)| repeat(*addr).zip(certs.keys())),
-        );
-        let their_certificates: HashSet<(SocketAddr, &Fingerprint)> = HashSet::from_iter(
-            other
-                .certificates
-                .iter()
-                .flat_map(|(addr, certs)| repeat(*addr).zip(certs.keys())),
-        );
+        // the stored content is part of the comparison: a certificate re-added under the
+        // same fingerprint with other names, versions, chain or key is removed then added
+        let my_certificates: HashSet<(SocketAddr, (&Fingerprint, &CertificateAndKey))> =
+            HashSet::from_iter(
+                self.certificates
+                    .iter()
+                    .flat_map(|(addr, certs)| repeat(*addr).zip(certs.iter())),
+            );
+        let their_certificates: HashSet<(SocketAddr, (&Fingerprint, &CertificateAndKey))> =
+            HashSet::from_iter(
+                other
+                    .certificates
+                    .iter()
+                    .flat_map(|(addr, certs)| repeat(*addr).zip(certs.iter())),
+            );
 
         let removed_certificates = my_certificates.difference(&their_certificates);
         let added_certificates = their_certificates.difference(&my_certificates);
 
-        for &(address, fingerprint) in removed_certificates {
+        for &(address, (fingerprint, _)) in removed_certificates {
             v.push(
                 RequestType::RemoveCertificate(RemoveCertificate {
                     address: SocketAddress::from(address),
@@ -2164,7 +2168,7 @@ impl ConfigState {
             );
         }
 
-        for &(address, fingerprint) in added_certificates {
+        for &(address, (fingerprint, _)) in added_certificates {
             if let Some(certificate_and_key) = other
                 .certificates
                 .get(&address)
